@@ -156,7 +156,8 @@ def card_outcome(cfg: Dict[str, Any]) -> Dict[str, Any]:
 class Model:
     """Reference model for one configuration.  cfg keys (all optional except model):
     model: py | py-emu | rs | rs-cpu;  fill: k|None;  mirror: bool (rs);  rom: {"k","api"} with api in
-    load_rom (py) / slice (rs, unprotected) / window (rs, load_pce500_rom_window = map);  map: bool (rs);
+    load_rom (py) / slice (rs, unprotected) / window (rs, load_pce500_rom_window = map) / sysimg (rs,
+    load_pce500_system_image = image of rom["len"] bytes + map; >= 1 MiB: whole external space);  map: bool (rs);
     ro: [[s,e]..] (rs);  card: {"size","k","writable"};  slot: None|True|False;
     ovl: [{"kind": ram|rom, "start", "size", "k"}]."""
 
@@ -244,9 +245,13 @@ class Model:
             api = rom["api"]
             if api == "load_rom":
                 overlay(ROM_LO, ROM_HI, "rom", "ro", ("pat", rom["k"]))  # PCE500Memory.load_rom: an overlay
-            elif api == "window":
+            elif api in ("window", "sysimg"):
                 regs.append((ROM_LO, ROM_HI, "rom", "ro", ("pat", rom["k"])))
                 regs.append((0x00000, 0x3FFFF, "ro", "ro", ("base",)))
+                if api == "sysimg" and rom.get("len", 0) >= 0x100000:
+                    # load_pce500_system_image with a full image: the whole 1 MiB external space is the image
+                    # ("system_image_loads_low_and_high_windows" test); the PC-E500 map protects both windows
+                    self.fill = rom["k"]
         for r in cfg.get("ro") or []:
             regs.append((r[0], r[1], "ro", "ro", ("base",)))
         if cfg.get("map"):
@@ -559,7 +564,8 @@ def describe(m: Model, addr: int, nbytes: int) -> Tuple[str, List[str]]:
     ovl-edge (multi-byte access with some bytes inside overlays and some outside every overlay), ro-edge
     (multi-byte access with some bytes in a read-only range / ROM window and some not), kb-data-ovl (Python, a
     property of the configuration: a RAM/ROM overlay lies wholly inside the key-port block 0x1000F0..0x1000F2, which
-    PCE500Memory takes for the keyboard port overlay)."""
+    PCE500Memory takes for the keyboard port overlay), sysimg (Rust, a property of the configuration: the ROM image
+    was loaded through the system-image entry point)."""
     cells = m.cells(addr, nbytes)
     names: List[str] = []
     per_byte: List[str] = []
@@ -594,6 +600,8 @@ def describe(m: Model, addr: int, nbytes: int) -> Tuple[str, List[str]]:
         flags.append("split")
     if m.kb_data_ovl:
         flags.append("kb-data-ovl")
+    if (m.cfg.get("rom") or {}).get("api") == "sysimg":
+        flags.append("sysimg")  # configuration: ROM image through load_pce500_system_image (names the entry point)
     if nbytes > 1:
         first = addr & 0xFFFFFF
         last = first + nbytes - 1
